@@ -33,6 +33,15 @@ func init() {
 		Run:   ruleCov2,
 	})
 	register(&Rule{
+		ID: "COV-3",
+		Doc: "Skipping a persistence round must be deletion-aware: in Store.persist a return taken because the incoming stack isEmpty() (no segments anywhere in the tree) skips buildNewFooter, " +
+			"the only place where a child collection absent from the incoming stack is dropped from the footer. isEmpty cannot see an absence, so the skip decision must also consult the " +
+			"store footer's ChildFooters; otherwise a batch that only deletes a child collection is never persisted and the child is back after reopen.",
+		Props: []string{"C11", "C04", "C20"},
+		Floor: 1,
+		Run:   ruleCov3,
+	})
+	register(&Rule{
 		ID: "REF-3",
 		Doc: "Zero closes the next level: the refs <= 0 branch of each release function releases every owning field of its type – segmentStack.decRef: lowerLevelSnapshot; " +
 			"SnapshotWrapper.decRef: ss, closer; Footer.DecRef: SegmentLocs; mmapRef.DecRef: mm (Unmap), fref; FileRef.DecRef: file; Store.Close: footer.",
@@ -239,6 +248,58 @@ func ruleCov2(c *Ctx) []*Ob {
 					"the predicate looks only at "+sect+".a: a batch that only touches child collections leaves a unchanged, so it is invisible to this test")
 			}
 		}
+	}
+	return o.list
+}
+
+func ruleCov3(c *Ctx) []*Ob {
+	o := newObs(c, "COV-3")
+	persist := c.Fn("(*Store).persist")
+	isEmpty := c.Fn("(*segmentStack).isEmpty")
+	bnf := c.Fn("(*Store).buildNewFooter")
+	fn := c.fname(persist)
+	n := 0
+	for _, b := range persist.Blocks {
+		iff, ok := b.Instrs[len(b.Instrs)-1].(*ssa.If)
+		if !ok {
+			continue
+		}
+		call, ok := iff.Cond.(*ssa.Call)
+		if !ok || call.Call.StaticCallee() != isEmpty {
+			continue
+		}
+		n++
+		// does the true edge lead to a return that bypasses buildNewFooter?
+		skips := false
+		walk(point{b.Succs[0], 0}, walkOpts{visit: func(i ssa.Instruction, t *tracker) bool {
+			if isCallOf(i, bnf) {
+				return true
+			}
+			if _, isRet := i.(*ssa.Return); isRet {
+				skips = true
+				return true
+			}
+			return false
+		}})
+		if !skips {
+			o.add(fn, "isEmpty() does not skip buildNewFooter", c.instrPos(iff), true, "an empty incoming stack still goes through buildNewFooter")
+			continue
+		}
+		// the decision must have looked at the store's children
+		looks := false
+		for _, a := range fieldAccesses(persist, func(v *types.Var) bool { return v.Name() == "ChildFooters" }) {
+			if mustPrecede(persist, b.Succs[0].Instrs[0], func(i ssa.Instruction) bool { return i == a.Instr }, nil) {
+				looks = true
+			}
+		}
+		why := "the skip also consults the store footer's ChildFooters"
+		if !looks {
+			why = "persist returns without building a new footer whenever the incoming stack has no segments, without looking at the store footer's ChildFooters: a batch that only deletes a child collection is never persisted - after reopen the child and all its data are back"
+		}
+		o.add(fn, "skip on isEmpty() is deletion-aware", c.instrPos(iff), looks, why)
+	}
+	if n == 0 {
+		o.trivial(fn, "skip on isEmpty()", c.pos(persist.Pos()), "persist no longer skips rounds on isEmpty(): nothing to require")
 	}
 	return o.list
 }
